@@ -31,6 +31,7 @@ def run(ctx):
     cases = codec.gen_cases(ctx, ctx.n(120, 2500), depth=3)
     cases += codec.leaf_boundary_cases(ctx, every=3 if ctx.tier == 'quick' else 1)
     cases += codec.presence_grid_cases(ctx, every=2 if ctx.tier == 'quick' else 1)
+    cases += codec.empty_member_grid_cases(ctx, every=3 if ctx.tier == 'quick' else 1)   # empty / non-empty constructed members around OPTIONAL ones
     cases += codec.tag_grid_cases(ctx, every=2 if ctx.tier == 'quick' else 1)            # every kind under every tagging shape of depth 0..2
     cases += codec.set_order_grid_cases(ctx, every=12 if ctx.tier == 'quick' else 1)     # every ordered pair of differently tagged SET members
     exprs, meta = [], []
